@@ -549,7 +549,7 @@ fn compare_dir(
             if let Some(exp0) = expect {
                 // sub-directories start with '.' and '..'; padded directories end with filler entries
                 let mut exp: Vec<Expect> = Vec::new();
-                if got.first().map(|g| format!("{}", g.e.name) == ".").unwrap_or(false) {
+                if want.len() >= 2 && want[0].kind == SlotKind::Live && want[0].is_dot() && want[0].is_dir() && want[1].kind == SlotKind::Live && want[1].is_dotdot() {
                     exp.push(Expect::DontCare);
                     exp.push(Expect::DontCare);
                 }
@@ -735,6 +735,11 @@ fn lookups(
                 if let Err(p) = lr {
                     return Err(fail("C06", "listing-panic", format!("{}: listing the directory opened through {:?} panicked: {}", what, name, crate::interp::panic_msg(&p).0)));
                 }
+                let wild = first_match.map(|w| { let f = w.first(lay.fat32); f != 0 && !lay.in_range(f) }).unwrap_or(false);
+                if wild && want_dir && !(name == ".") {
+                    // a start cluster that is not a cluster of the volume designates no directory
+                    return Err(fail("C06", "open-dir-leads-nowhere", format!("{}: open_dir({:?}) succeeded although the entry's start cluster {:#x} is not on the volume", what, name, first_match.unwrap().first(lay.fat32))));
+                }
                 if !want_dir {
                     return Err(fail("C06", "open-dir-unlisted", format!("{}: open_dir({:?}) succeeded but the listing has no directory of that name", what, name)));
                 }
@@ -760,7 +765,7 @@ fn lookups(
     Ok(())
 }
 
-const OP_NAMES: &[&str] = &["NEW1", "NEW2.TXT", "TESTDIR", "A", "B.TXT", "FOO.BAR", "SUB", "X1", "DIRX", "LOG"];
+const OP_NAMES: &[&str] = &["NEW1", "NEW2.TXT", "TESTDIR", "A", "B.TXT", "FOO.BAR", "SUB", "X1", "DIRX", "LOG", ".", ".."];
 
 /// Run one generated directory case. `props`: which oracles are active.
 pub fn run_case(c: &DirCase, acc: &mut Acc, check_c06: bool, check_c17: bool, verbose: bool) -> Result<(), Failure> {
@@ -795,8 +800,15 @@ pub fn run_case(c: &DirCase, acc: &mut Acc, check_c06: bool, check_c17: bool, ve
                 if verbose {
                     println!("op {:?} {} -> {:?}", kind % 3, name, r.as_ref().map(|r| r.as_ref().map_err(|e| format!("{:?}", e))));
                 }
-                if let Err(p) = r {
-                    return Err(fail(prop, "op-panic", format!("operation {} on {} panicked: {}", kind % 3, name, crate::interp::panic_msg(&p).0)));
+                match &r {
+                    Err(p) => return Err(fail(prop, "op-panic", format!("operation {} on {} panicked: {}", kind % 3, name, crate::interp::panic_msg(p).0))),
+                    // the dot names refer to directories that exist already (or, in a root, to
+                    // nothing): whatever the directory holds - also a label or junk spelled "." -
+                    // no file or directory of that name can be made
+                    Ok(Ok(())) if check_c06 && name.starts_with('.') && kind % 3 != 1 => {
+                        return Err(fail("C06", "dot-entry-created", format!("{} of {:?} succeeded", if kind % 3 == 0 { "creating a file" } else { "make_dir_in_dir" }, name)));
+                    }
+                    _ => {}
                 }
                 acc.class("post-ops");
             }
@@ -1083,11 +1095,11 @@ pub fn item_strategy(c17_bias: bool) -> BoxedStrategy<Item> {
         1 => units_strategy().prop_map(|units| Item::Orphan { units }),
         1 => prop_oneof![Just(0x4242u16), Just(0x4343u16)].prop_map(|tail| Item::LfnSpelling { tail }),
         1 => Just(Item::Label),
-        2 => gen::pool_name().prop_map(|name| Item::NamedLabel { name }),
+        2 => prop_oneof![8 => gen::pool_name(), 1 => Just(*b".          "), 1 => Just(*b"..         ")].prop_map(|name| Item::NamedLabel { name }),
         w_broken => (prop::collection::vec((prop_oneof![Just(0x41u8), Just(0x42u8), Just(0x43u8), Just(0x01u8), Just(0x02u8), Just(0x03u8), Just(0x40u8), Just(0xC1u8), Just(0x81u8), Just(0x61u8), Just(0x21u8), Just(0x54u8), Just(0x55u8), Just(0x14u8), any::<u8>()], prop::bool::weighted(0.8), any::<u8>(), any::<u16>()), 1..6), entry_name()).prop_map(|(frags, name)| Item::FragSoup { frags, name }),
         2 => any::<[u8; 32]>().prop_map(Item::Junk),
         1 => Just(Item::End),
-        1 => (entry_name(), prop_oneof![Just(1u32), Just(0x0FFF_FFF0u32), Just(0xFFFF_FFF0u32), Just(0x0FFF_FFFFu32), Just(0xFFF7u32), Just(0xFFFFu32), Just(0x4000_0000u32), (300_000u32..400_000), any::<u32>()]).prop_map(|(name, cluster)| Item::WildDir { name, cluster }),
+        1 => (entry_name(), prop_oneof![Just(1u32), Just(0x0FFF_FFF0u32), Just(0xFFFF_FFF0u32), Just(0xFFFF_FFFCu32), Just(0xFFFF_FFFBu32), Just(0x0FFF_FFFFu32), Just(0xFFF7u32), Just(0xFFFFu32), Just(0x4000_0000u32), (300_000u32..400_000), any::<u32>()]).prop_map(|(name, cluster)| Item::WildDir { name, cluster }),
     ]
     .boxed()
 }
